@@ -27,6 +27,15 @@ var canaries = map[string][]canary{
 	"C05": {
 		{"controller.go", "\t\tc.subscription.send(evt)\n", "\t\tgo c.subscription.send(evt)\n", "T-NOSPAWN(event-path)/controller.distributeEvents", "go statement on the event path"},
 	},
+	"C06": {
+		{"subscription_filter.go", "\tselect {\n\tcase s.refilterch <- filter:\n\t\treturn nil\n\tcase <-s.lc.ShuttingDown():\n\t\treturn errors.WithStack(ErrNotRunning)\n\t}\n}", "\tgo func() {\n\t\tselect {\n\t\tcase s.refilterch <- filter:\n\t\tcase <-s.lc.ShuttingDown():\n\t\t}\n\t}()\n\treturn nil\n}", "T-CHAN(request-sync)/filterSubscription.refilterch", "a request handed to the loop from a spawned goroutine"},
+	},
+	"C03": {
+		{"controller.go", "\t\tcase <-c.lister.Done():\n\n\t\t\terr := c.lister.Error()\n\t\t\tc.log.Debugf(\"lister complete: %v\", err)\n\t\t\tc.lc.ShutdownInitiated(errors.Wrap(err, \"lister complete\"))\n\t\t\tbreak mainloop\n", "", "T-TABLE(controller.run)/controller.run/arm[listerDone]/present", "a select arm of the reference removed"},
+	},
+	"C02": {
+		{"cache.go", "events := make([]Event, 0, 1)", "events := make([]Event, 1, 1)", "T-SHAPE(append-base)/_cache.doUpdate", "an append base made with a non-zero length"},
+	},
 	"C10": {
 		{"subscription.go", "\t\t\tdefault:\n\t\t\t\ts.log.Warnf(\"event buffer overrun\")\n", "", "T-CHAN(consumer-buffer)/_subscription.run", "default: removed from the consumer-facing send"},
 	},
